@@ -10,6 +10,7 @@ minimises them, matches the known-findings file, writes evidence/<ID>.json and p
 Exit: 0 property held on everything explored, 1 violation, 2 machinery fault.
 """
 import concurrent.futures as cf
+import threading
 import hashlib
 import json
 import os
@@ -52,6 +53,11 @@ CONFIG = {
                                                      ("oom/plain", "plain", "yaepsim", "oom", 0, 10000, 200000)]),
 }
 CHUNK = 250  # runs per worker process (workers are recycled: DESIGN.md §3.9)
+# Workers that keep dying mean a tree that is broken beyond doubt: after this many worker deaths in one check the
+# remaining chunks are not started (the deaths already seen are triaged as usual).
+MAX_WORKER_DEATHS = 24
+_deaths = [0]
+_deaths_lock = threading.Lock()
 # C17: exhaustive enumeration of the failing request k over the scenario corpus (yaepsim --oomenum).
 # quick enumerates a seeded slice of the corpus, thorough all of it, in both flavours.
 ENUM = {"C17": dict(quick=[("enum/asan", "asan", 12), ("enum/plain", "plain", 40)], thorough=[("enum/asan", "asan", None), ("enum/plain", "plain", None)])}
@@ -129,6 +135,9 @@ def run_chunk(exe, mode, focus, a, b, want_shapes):
     guard = 0
     while cur < b and guard < 64:
         guard += 1
+        if _deaths[0] >= MAX_WORKER_DEATHS:
+            out["abandoned"] = b - cur
+            break
         if len(out["crashes"]) >= 6:
             # a tree on which workers keep dying is broken beyond doubt: do not spend a process per seed on it
             out["abandoned"] = b - cur
@@ -178,6 +187,8 @@ def run_chunk(exe, mode, focus, a, b, want_shapes):
             cur = last + 1
             continue
         # the worker died (sanitizer abort, signal, timeout) during seed `last`
+        with _deaths_lock:
+            _deaths[0] += 1
         if last is None:
             out["crashes"].append((cur, "worker produced no output%s" % (" (timeout)" if timed_out else "")))
             cur += 1
@@ -422,7 +433,10 @@ def main():
     n_triaged = 0
     for cls, items in sorted(todo.items()):
         seen_final = set()
+        repeats = 0
         for (b, s, detail) in items[: (3 if cls != "CRASH" else 12)]:
+            if repeats >= 2:
+                break  # worker deaths keep classifying to classes already seen
             n_triaged += 1
             if isinstance(s, tuple):
                 plan_path = os.path.join(BUILD, "cand-%s-%s-enum-%d-%d-%d-%d.plan" % ((prop, b.flavour) + s))
@@ -452,6 +466,8 @@ def main():
                 for c, _ in c1:
                     other_props[c] = other_props.get(c, 0) + 1
                 continue
+            if mine and all(c in seen_final for c, _ in mine):
+                repeats += 1
             for c, d in mine:
                 if c in seen_final:
                     continue
